@@ -67,8 +67,9 @@ package slip
 // iteration i is the one in slot i is not stated: the slot may hold its compiled
 // version by then and the heap is arbitrary after earlier evaluations.)
 //@ func slip.(*Function).Eval
-//@   property C01
+//@   property C01 C07
 //@   option trace
+//@   option forward-exits
 //@   at-eval arguments-in-the-callers-scope: ($kind == 2 && !$inlined) ==> $scope == s
 //@   after-loop Call rangeindex+1<len(f.Args)
 //@   full-loop rangeindex+1<len(f.Args)
